@@ -3,7 +3,7 @@ multi-step situations each clause is about, executed in every tier in addition
 to TLC-generated behaviours and random scenarios."""
 
 BASE = dict(lockAfter=2, lockWindow=2, lockDuration=2, expireAfter=2, recoverTTL=2, recoverLogin=False, emailAuth=False,
-            totpOneTime=False, whitelist=[], logoutMethod='DELETE', mwReqs=0, mwFail='404', errWrites=False, json=False, mailGo=False, foldPid=False, regNoWhitelist=False)
+            totpOneTime=False, whitelist=[], logoutMethod='DELETE', mwReqs=0, mwFail='404', errWrites=False, json=False, mailGo=False, foldPid=False, regNoWhitelist=False, appHandles2FA=False)
 E0 = dict(act='none', b='none', pid='none', pw=0, tok=0, rm=False, valid=True, d=0, method='none', code=0, rc=0, g=0,
           kind='none', prov='none', outcome='none', phone=0, redir='none', k='none')
 
@@ -156,4 +156,33 @@ SCRIPTS['C19'] = [
        seed=[U('u1', 1)], regNoWhitelist=True),
     sc('default-whitelist-extra-fields', ['auth', 'register', 'confirm', 'logout'],
        [ev('RegisterPost', pid='u2', pw=5, junk='extra'), ev('ConfirmGet', tok=1), login('u2', 5)], seed=[U('u1', 1)]),
+]
+
+SCRIPTS['C17'] = [
+    sc('token-links-refused', ['auth', 'remember', 'totp', 'confirm', 'recover', 'logout'],
+       [login('u1', 1, rm=True), ev('EmailVerifyStart', kind='totp'), ev('DropSession'), ev('EmailVerifyEnd', kind='totp', tok=1),
+        ev('Logout', method='DELETE'), ev('EmailVerifyEnd', kind='totp', tok=1), ev('RestartConfirm', 'none', pid='u2'),
+        ev('ConfirmGet', tok=1, junk='trail'), ev('ConfirmGet', tok=1), ev('RecoverStart', pid='u2'),
+        ev('RecoverEnd', tok=1, pw=3, valid=False), ev('RecoverEnd', tok=1, pw=3)],
+       emailAuth=True, mwFail='redirect'),
+    sc('register-secrets', ['auth', 'register', 'otp', 'logout'],
+       [ev('RegisterPost', pid='u2', pw=5, junk='extra'), ev('OtpAdd'), ev('OtpLoginPost', 'b2', pid='u2', tok=1),
+        ev('UpdatePassword', 'none', pid='u2', pw=5), login('u2', 5)], seed=[U('u1', 1)], regNoWhitelist=True),
+]
+SCRIPTS['C18'] += [
+    sc('f-sms-rc-500', ['auth', 'sms', 'lock', 'logout'],
+       [login('u2', 2), ev('SmsValidate', rc=2, g=1), ev('Logout', method='DELETE'), login('u2', 2), ev('SmsValidate', rc=2, g=1)],
+       seed=T1, errWrites=True),
+    sc('f-sms-rc-silent', ['auth', 'sms', 'logout'],
+       [login('u2', 2), ev('SmsValidate', rc=2, g=1), login('u2', 2, b='b2'), ev('SmsValidate', 'b2', rc=2, g=1)], seed=T1),
+    sc('f-totp-rc-silent', ['auth', 'totp', 'logout'],
+       [login('u1', 1), ev('TotpValidate', rc=1, g=1), login('u1', 1, b='b2'), ev('TotpValidate', 'b2', rc=1, g=1)], seed=T1),
+    sc('f-cookie-500', ['auth', 'remember', 'logout'],
+       [login('u1', 1, rm=True), ev('DropSession'), probe(), ev('DropSession'), probe(), ev('StealCookie', k='b2'), probe('b2')],
+       errWrites=True),
+    sc('f-register-confirm-silent', ['auth', 'register', 'confirm', 'lock', 'logout'],
+       [ev('RegisterPost', pid='u2', pw=2), ev('ConfirmGet', tok=1), login('u2', 2), probe()], seed=[U('u1', 1)]),
+    sc('f-recover-login-2fa', ['auth', 'recover', 'totp', 'remember', 'logout'],
+       [ev('RecoverStart', pid='u1'), ev('RecoverEnd', tok=1, pw=3), ev('TotpValidate', tok=1, code=1), probe()],
+       seed=T1, recoverLogin=True, errWrites=True),
 ]
